@@ -44,7 +44,7 @@ class Model:
         self.gextra = None
         self.tpls = []
         self.graphics = False    # XML only: coordinates on elements, nails (ignored by the reader, must not disturb anything)
-        self.layout = 0          # 0 plain label texts, 1 comments around them, 2 blank lines and blanks around them
+        self.layout = 0          # 0 plain label texts, 1 comments around them, 2 blank lines and blanks around them, 3 comments closed by star runs
         self.xmlstyle = 0        # XML only: 0 compact, 1 pretty printed, 2 comments / processing instructions everywhere, 3 ignorable labels and attributes
         self.encoding = "entities"   # XML only: how element text is written (entities, one CDATA section, text + CDATA, character references)
         self.insts = []      # (name, formal params [(kind,name)], template/instance name, [args])   args: ("k", K) / ("v", varname)
@@ -175,6 +175,12 @@ def lay(m, text):
         return text
     if m.layout == 1:
         return "// leading comment\n" + text + " /* trailing */"
+    if m.layout == 3:      # block comments that close with a run of stars, in front of the text and in the middle of it
+        i = text.find(" && ")
+        j = text.find(", ") if i < 0 else -1
+        k = i if i >= 0 else j
+        mid = (text[:k + 1] + "/*** inner **/" + text[k + 1:]) if k >= 0 else text
+        return "/** doc **/ " + mid + " /***/ /* plain */"
     return "\n  \t" + text + "  \n\n"
 
 
@@ -502,7 +508,7 @@ def build(choose, common=False, bp_base=True):
 
     shortnames = bool(choose(2, "locnames"))
     m.graphics = bool(choose(2, "graphics")) if not common else False
-    m.layout = choose(3, "labellayout")
+    m.layout = choose(4, "labellayout")
     m.encoding = ["entities", "cdata", "cdata-split", "charrefs"][choose(4, "xmlencoding")]
     m.xmlstyle = choose(4, "xmlstyle")
 
